@@ -20,6 +20,10 @@ import (
 	"github.com/ava-labs/avalanchego/database/memdb"
 	"github.com/ava-labs/avalanchego/ids"
 	"github.com/ava-labs/avalanchego/network/p2p"
+	"github.com/ava-labs/avalanchego/network/p2p/acp118"
+	"github.com/ava-labs/avalanchego/proto/pb/sdk"
+	"github.com/ava-labs/avalanchego/utils/crypto/bls"
+	"github.com/ava-labs/avalanchego/utils/wrappers"
 	"github.com/ava-labs/avalanchego/snow/engine/common"
 	"github.com/ava-labs/avalanchego/trace"
 	"github.com/ava-labs/avalanchego/utils/logging"
@@ -50,6 +54,87 @@ type vUniverse struct {
 	chunks []*vChunk // idx = position+1
 	byID   map[ids.ID]*vChunk
 	nodes  []*Node[dsmrtest.Tx]
+	// features of the running code the model is told about (header lines)
+	nilCertGuard  bool // VerifyRemoteChunk survives a pending chunk without certificate
+	checksMessage bool // the signature-request verifier compares the message with the chunk
+	forged        map[int]*ChunkCertificate // chunk idx -> valid certificate over a reference with another expiry
+	forgedOrder   []int
+}
+
+// expiry written into the forged reference of chunk idx
+var vForgedExpiry = map[int]int64{1: 20, 4: 27}
+
+// vReference builds the warp message over a chunk reference
+func vReference(t *testing.T, ref ChunkReference) *warp.UnsignedMessage {
+	p := wrappers.Packer{MaxSize: MaxMessageSize}
+	if err := codec.LinearCodec.MarshalInto(ref, &p); err != nil {
+		t.Fatal(err)
+	}
+	um, err := warp.NewUnsignedMessage(networkID, chainID, p.Bytes)
+	if err != nil {
+		t.Fatal(err)
+	}
+	return um
+}
+
+// probe reads the two features from the running code and tries to obtain, from the universe's
+// own validators, certificates over references that do not match the chunk they were shown.
+func (u *vUniverse) probe(t *testing.T) {
+	ctx := context.Background()
+	n0 := u.nodes[0]
+	rf := testRuleFactory
+	ver := NewChunkVerifier[dsmrtest.Tx](n0.chainState, rf)
+	st, err := NewChunkStorage[dsmrtest.Tx](ver, memdb.New(), rf)
+	if err != nil {
+		t.Fatal(err)
+	}
+	c := u.chunks[6]
+	_ = st.AddLocalChunkWithCert(c.chunk, nil)
+	func() {
+		defer func() { u.nilCertGuard = recover() == nil }()
+		_, _ = st.VerifyRemoteChunk(c.chunk)
+	}()
+	// mismatching request against a scratch handler
+	h := acp118.NewHandler(ChunkSignatureRequestVerifier[dsmrtest.Tx]{verifier: ver, storage: st}, n0.Signer)
+	a, b := u.chunks[7], u.chunks[8]
+	um := vReference(t, ChunkReference{ChunkID: a.chunk.id, Producer: a.chunk.Producer, Expiry: a.chunk.Expiry + 1})
+	rb, _ := proto.Marshal(&sdk.SignatureRequest{Message: um.Bytes(), Justification: b.chunk.bytes})
+	_, appErr := h.AppRequest(ctx, n0.ID, time.Now().Add(time.Second), rb)
+	u.checksMessage = appErr != nil
+	// forged certificates through the real aggregation path (what BuildChunk does)
+	u.forged = map[int]*ChunkCertificate{}
+	for _, idx := range []int{1, 4} {
+		x := u.get(idx)
+		ref := ChunkReference{ChunkID: x.chunk.id, Producer: x.chunk.Producer, Expiry: vForgedExpiry[idx]}
+		just, err := signChunk[dsmrtest.Tx](UnsignedChunk[dsmrtest.Tx]{Producer: n0.ID, Beneficiary: codec.Address{0xf0, byte(idx)},
+			Expiry: 50, Txs: []dsmrtest.Tx{{ID: ids.ID{0xf0, byte(idx)}, Expiry: 1_000_000}}}, networkID, chainID, n0.PublicKey, n0.Signer)
+		if err != nil {
+			t.Fatal(err)
+		}
+		msg, err := warp.NewMessage(vReference(t, ref), &warp.BitSetSignature{Signature: [bls.SignatureLen]byte{}})
+		if err != nil {
+			t.Fatal(err)
+		}
+		vals, err := n0.chainState.GetCanonicalValidatorSet(ctx)
+		if err != nil {
+			t.Fatal(err)
+		}
+		agg, _, _, err := n0.chunkSignatureAggregator.AggregateSignatures(ctx, msg, just.bytes, vals.Validators,
+			n0.chainState.GetQuorumNum(), n0.chainState.GetQuorumDen())
+		if err != nil {
+			continue
+		}
+		sig, ok := agg.Signature.(*warp.BitSetSignature)
+		if !ok {
+			continue
+		}
+		cert := &ChunkCertificate{ChunkReference: ref, Signature: sig}
+		if cert.Verify(ctx, n0.chainState) != nil {
+			continue
+		}
+		u.forged[idx] = cert
+		u.forgedOrder = append(u.forgedOrder, idx)
+	}
 }
 
 // expiry of universe chunk i+1; the last two are chunks whose signature does not verify
@@ -114,6 +199,7 @@ func newVUniverse(t *testing.T) *vUniverse {
 	if len(u.byID) != len(u.chunks) {
 		t.Fatal("chunk ids not distinct")
 	}
+	u.probe(t)
 	return u
 }
 
@@ -133,6 +219,11 @@ func (u *vUniverse) header() []string {
 			v = 1
 		}
 		out = append(out, fmt.Sprintf("chunk %d %d %d %d %d", c.idx, c.producer, c.chunk.Expiry, len(c.chunk.bytes), v))
+	}
+	b := map[bool]int{false: 0, true: 1}
+	out = append(out, fmt.Sprintf("feature nilcertguard %d", b[u.nilCertGuard]), fmt.Sprintf("feature checksmessage %d", b[u.checksMessage]))
+	for _, idx := range u.forgedOrder {
+		out = append(out, fmt.Sprintf("forge %d %d", idx, vForgedExpiry[idx]))
 	}
 	return out
 }
@@ -340,6 +431,13 @@ func (a vAbs) String() string {
 }
 
 func (s *vSUT) certTok(tok string) (*ChunkCertificate, int) {
+	if strings.HasSuffix(tok, "f") {
+		i, err := strconv.Atoi(strings.TrimSuffix(tok, "f"))
+		if err != nil || s.u.forged[i] == nil {
+			return nil, 0
+		}
+		return s.u.forged[i], i
+	}
 	bad := strings.HasSuffix(tok, "x")
 	i, err := strconv.Atoi(strings.TrimSuffix(tok, "x"))
 	if err != nil {
@@ -404,6 +502,55 @@ func (s *vSUT) exec(line string) (out string) {
 		}
 		s.defined[i] = true
 		return "ok"
+	case "feature":
+		b := map[bool]string{false: "0", true: "1"}
+		if len(f) == 3 && ((f[1] == "nilcertguard" && f[2] == b[s.u.nilCertGuard]) || (f[1] == "checksmessage" && f[2] == b[s.u.checksMessage])) {
+			return "ok"
+		}
+		return "bad-op"
+	case "forge":
+		if len(f) != 3 {
+			return "bad-op"
+		}
+		i, ok := num(f[1])
+		if !ok || s.u.forged[i] == nil || f[2] != strconv.FormatInt(vForgedExpiry[i], 10) || s.defined[1000+i] {
+			return "bad-op"
+		}
+		s.defined[1000+i] = true
+		return "ok"
+	case "sigreq":
+		if len(f) != 4 {
+			return "bad-op"
+		}
+		i, ok1 := num(f[1])
+		e, ok2 := num(f[2])
+		j, ok3 := num(f[3])
+		ci, cj := s.u.get(i), s.u.get(j)
+		if !ok1 || !ok2 || !ok3 || ci == nil || cj == nil {
+			return "bad-op"
+		}
+		defer func() {
+			if r := recover(); r != nil {
+				out = "panic"
+			}
+		}()
+		h := acp118.NewHandler(ChunkSignatureRequestVerifier[dsmrtest.Tx]{verifier: s.verifier, storage: st}, s.u.nodes[0].Signer)
+		um := vReference(s.t, ChunkReference{ChunkID: ci.chunk.id, Producer: ci.chunk.Producer, Expiry: int64(e)})
+		rb, _ := proto.Marshal(&sdk.SignatureRequest{Message: um.Bytes(), Justification: cj.chunk.bytes})
+		resp, appErr := h.AppRequest(ctx, s.u.nodes[0].ID, time.Now().Add(time.Second), rb)
+		if appErr != nil {
+			return "refused"
+		}
+		// the answer must be a signature of this validator over exactly the requested message
+		sr := &sdk.SignatureResponse{}
+		if err := proto.Unmarshal(resp, sr); err != nil {
+			return "bad-response"
+		}
+		sig, err := bls.SignatureFromBytes(sr.Signature)
+		if err != nil || !bls.Verify(s.u.nodes[0].PublicKey, sig, um.Bytes()) {
+			return "bad-signature"
+		}
+		return "signed"
 	case "cfg":
 		if len(f) != 4 {
 			return "bad-op"
@@ -720,7 +867,7 @@ func (v *vRun) do(format string, a ...any) string {
 	line := fmt.Sprintf(format, a...)
 	out := v.sut.exec(line)
 	v.r.Emit(line, out)
-	if op := strings.SplitN(line, " ", 2)[0]; op != "abs" && op != "gather" && op != "chunk" {
+	if op := strings.SplitN(line, " ", 2)[0]; op != "abs" && op != "gather" && op != "chunk" && op != "feature" && op != "forge" {
 		v.r.Count("res:" + op + ":" + strings.SplitN(out, " ", 2)[0])
 	}
 	return out
@@ -738,7 +885,7 @@ func vStart(t *testing.T, id string) (*vRun, []string) {
 	if lines != nil {
 		kept := lines[:0]
 		for _, l := range lines {
-			if !strings.HasPrefix(l, "chunk ") {
+			if !strings.HasPrefix(l, "chunk ") && !strings.HasPrefix(l, "feature ") && !strings.HasPrefix(l, "forge ") {
 				kept = append(kept, l)
 			}
 		}
